@@ -263,6 +263,38 @@ def _update_geometry_unit(fast):
     return gen
 
 
+def _update_gv_unit(with_translation):
+    """columnfile.updateGV (fast route): gx, gy, gz are the reference g-vector; the translation comes from the argument when given, else
+    from the parameters"""
+    def gen(ctx):
+        cfm = repo_module("ImageD11.columnfile")
+        tr = repo_module("ImageD11.transform")
+        allp = CPARS + ["t_x", "t_y", "t_z"]
+
+        def args():
+            p = {k: ST.sym(k) for k in allp}
+            return (p, ST.symarray("sc", (1,)), ST.symarray("fc", (1,)), ST.symarray("omega", (1,)), ST.symarray("targ", (3,))), {}
+
+        def run(p, sc, fc, om, targ):
+            f = _FakeColumnfile(p, sc, fc, om)
+            saved = tr.cImageD11
+            tr.cImageD11 = FakeC
+            try:
+                cfm.columnfile.updateGV(f, translation=(list(targ) if with_translation else None), fast=True)
+            finally:
+                tr.cImageD11 = saved
+            return [f.cols[c][0] for c in ("gx", "gy", "gz")]
+
+        def spec(a, kw, pc):
+            p0, sc0, fc0, om0, targ = a
+            xyz = xyz_spec(sc0[0], fc0[0], p0)
+            t = [_T(x) for x in targ] if with_translation else [_T(p0["t_x"]), _T(p0["t_y"]), _T(p0["t_z"])]
+            return G.gvec(xyz, _T(om0[0] * p0["omegasign"]), _T(p0["wedge"]), _T(p0["chi"]), t, _T(p0["wavelength"]))
+        return trace_obligations("py:columnfile.updateGV[translation %s]" % ("given" if with_translation else "from parameters"), run,
+                                 [cfm, tr], args, spec, prop="C01", extra={"float": lambda x: x})
+    return gen
+
+
 def norm_steps(k, om, w, c):
     """the three single-rotation norm identities instantiated along g = R.C.W.k (each proved for free vectors below)"""
     t1 = G.rotW(k, w)
@@ -330,6 +362,82 @@ def pbp_units():
                 smt.sqrt_f(P * P + d[0] * d[0]) == R]
     out.append(mk("compute_k_vectors", kargs, lambda a, kw, pc: G.kvec(d, _T(a[2])),
                   requires=[z3.Or(d[1] != 0, d[2] != 0), z3.Real("wvln") != 0], lemmas_fn=klem))
+    # --- the three composing functions: argument wiring against uninterpreted callees (each callee is proved above)
+    DET = ["y_center", "y_size", "tilt_y", "z_center", "z_size", "tilt_z", "tilt_x", "distance", "o11", "o12", "o21", "o22"]
+    GEO = ["t_x", "t_y", "t_z", "wedge", "chi"]
+    UF = {}
+
+    def uf(name, n, k):
+        key = (name, n, k)
+        if key not in UF:
+            UF[key] = z3.Function("%s_%d" % (name, k), *([smt.R] * n + [smt.R]))
+        return UF[key]
+
+    def stub(name, order, nout, shape):
+        def f(*a, **kw):
+            vals = [_T(x[0] if hasattr(x, "__len__") and not isinstance(x, ST.S) and getattr(x, "ndim", 1) == 1 else x) for x in a if not (hasattr(x, "ndim") and x.ndim == 2)]
+            for x in a:
+                if hasattr(x, "ndim") and x.ndim == 2:
+                    vals += [_T(x[i, 0]) for i in range(x.shape[0])]
+            vals += [_T(kw[k]) for k in order]
+            res = [ST.S(uf(name, len(vals), j)(*vals)) for j in range(nout)]
+            import numpy as _onp
+            if shape == "pair":
+                a0, a1 = _onp.empty(1, dtype=object), _onp.empty(1, dtype=object)
+                a0[0], a1[0] = res[0], res[1]
+                return a0, a1
+            out = _onp.empty((3, 1), dtype=object)
+            for j in range(3):
+                out[j, 0] = res[j]
+            return out
+        return f
+
+    def mkw(fname, args, spec, stubs):
+        def gen(ctx):
+            pbp = repo_module("ImageD11.sinograms.point_by_point")
+            fn = getattr(pbp, fname)
+            fn = getattr(fn, "py_func", fn)
+            return trace_obligations("py:point_by_point." + fname + "[wiring]", fn, [pbp], args, spec, prop="C01", extra=stubs)
+        return GenUnit("py:point_by_point." + fname + "[wiring]", gen, "trace")
+    s_xyz = stub("pbp_xyz_lab", DET, 3, "vec")
+    s_tte = stub("pbp_tth_eta_from_xyz", GEO, 2, "pair")
+    s_k = stub("pbp_k_vectors", [], 3, "vec")
+    s_g = stub("pbp_g_from_k", [], 3, "vec")
+
+    def tth_eta_args():
+        kw = {k: ST.sym(k) for k in DET + GEO}
+        return (ST.symarray("sc", (1,)), ST.symarray("fc", (1,)), ST.symarray("omega", (1,))), kw
+
+    def tth_eta_wiring(a, kw, pc):
+        xyz = s_xyz(a[0], a[1], **{k: kw[k] for k in DET})
+        t, e = s_tte(xyz, a[2], **{k: kw[k] for k in GEO})
+        return [t[0], e[0]]
+    out.append(mkw("compute_tth_eta", tth_eta_args, tth_eta_wiring, {"compute_xyz_lab": s_xyz, "compute_tth_eta_from_xyz": s_tte}))
+
+    def gv_args():
+        return (ST.symarray("tth", (1,)), ST.symarray("eta", (1,)), ST.symarray("omega", (1,)), ST.sym("wvln")), dict(wedge=ST.sym("wedge"), chi=ST.sym("chi"))
+
+    def s_g2(k, omega, wedge, chi):
+        return s_g(k, omega, wedge, chi)
+    out.append(mkw("compute_g_vectors", gv_args, lambda a, kw, pc: s_g2(s_k(a[0], a[1], a[3]), a[2], kw["wedge"], kw["chi"]),
+                   {"compute_k_vectors": s_k, "compute_g_from_k": s_g2}))
+    # compute_gve: the detector distance seen from a voxel at xpos is distance - xpos; everything else is handed through
+    s_te = stub("pbp_tth_eta", DET + GEO, 2, "pair")
+    s_gv = stub("pbp_g_vectors", ["wedge", "chi"], 3, "vec")
+
+    def gve_args():
+        names = ["distance", "y_center", "y_size", "tilt_y", "z_center", "z_size", "tilt_z", "tilt_x", "o11", "o12", "o21", "o22",
+                 "t_x", "t_y", "t_z", "wedge", "chi", "wavelength"]
+        return (ST.symarray("sc", (1,)), ST.symarray("fc", (1,)), ST.symarray("omega", (1,)), ST.sym("xpos")) + tuple(ST.sym(n) for n in names), {}
+
+    def gve_wiring(a, kw, pc):
+        names = ["distance", "y_center", "y_size", "tilt_y", "z_center", "z_size", "tilt_z", "tilt_x", "o11", "o12", "o21", "o22",
+                 "t_x", "t_y", "t_z", "wedge", "chi", "wavelength"]
+        p = dict(zip(names, a[4:]))
+        p["distance"] = p["distance"] - a[3]
+        t, e = s_te(a[0], a[1], a[2], **{k: p[k] for k in DET + GEO})
+        return s_gv(t, e, a[2], p["wavelength"], wedge=p["wedge"], chi=p["chi"])
+    out.append(mkw("compute_gve", gve_args, gve_wiring, {"compute_tth_eta": s_te, "compute_g_vectors": s_gv}))
     return out
 
 
@@ -344,4 +452,6 @@ def units():
             GenUnit("py:transform.Ctransform", u_ctransform, "trace"),
             GenUnit("py:columnfile.updateGeometry[fast=True]", _update_geometry_unit(True), "trace"),
             GenUnit("py:columnfile.updateGeometry[fast=False]", _update_geometry_unit(False), "trace"),
+            GenUnit("py:columnfile.updateGV[translation from parameters]", _update_gv_unit(False), "trace"),
+            GenUnit("py:columnfile.updateGV[translation given]", _update_gv_unit(True), "trace"),
             LemmaUnit("rotation_preserves_norm", u_norm_lemma)] + pbp_units()
